@@ -41,9 +41,17 @@ KERNELS = [
     ("sparse.py", "sparse_sum", dict(ind1="arrI", data1="arrP", ind2="arrI", data2="arrP"), ("arrI", "arrP")),
     ("sparse.py", "sparse_mul", dict(ind1="arrI", data1="arrP", ind2="arrI", data2="arrP"), ("arrI", "arrP")),
     ("sparse.py", "sparse_dot_product", dict(ind1="arrI", data1="arrP", ind2="arrI", data2="arrP"), "P"),
+    # kernels over 2-D arrays that call the ones above on row views (`prange` is translated as `range`: the
+    # schedule-independence of these loops is property C05's obligation over Gen/Prange.lean)
+    ("utils.py", "deheap_sort", dict(indices="arr2I", distances="arr2P"), ("arr2I", "arr2P")),
+    ("utils.py", "apply_graph_updates_low_memory", dict(current_graph=("arr2I", "arr2P", "arr2I"), updates="updLL", n_threads="Int"), "Int"),
 ]
 
-LEAN_TY = {"P": "P", "Int": "Int", "arrP": "Array P", "arrI": "Array Int", "Unit": "Unit", "Bool": "Bool"}
+LEAN_TY = {"P": "P", "Int": "Int", "arrP": "Array P", "arrI": "Array Int", "Unit": "Unit", "Bool": "Bool",
+           "arr2P": "Array (Array P)", "arr2I": "Array (Array Int)",
+           "upd": "(Int × Int × P)", "updL": "Array (Int × Int × P)", "updLL": "Array (Array (Int × Int × P))"}
+ELEM = {"arrP": "P", "arrI": "Int", "arr2P": "arrP", "arr2I": "arrI", "updLL": "updL", "updL": "upd"}
+MUTATING = {}     # translated kernel name -> Fn (for calls from later kernels)
 
 
 class Unsupported(Exception):
@@ -54,6 +62,13 @@ def lean_ty(t):
     if isinstance(t, tuple):
         return " × ".join(LEAN_TY[x] for x in t) if t else "Unit"
     return LEAN_TY[t]
+
+
+def base_name(e):
+    """the array variable a (possibly nested) subscript expression is rooted in"""
+    while isinstance(e, ast.Subscript):
+        e = e.value
+    return e.id if isinstance(e, ast.Name) else None
 
 
 def names_loaded(node):
@@ -69,6 +84,11 @@ def stored_names(stmts):
                 out.append(n.id)
             elif isinstance(n, ast.Subscript) and isinstance(n.ctx, ast.Store) and isinstance(n.value, ast.Name):
                 out.append(n.value.id)
+            elif isinstance(n, ast.Call) and isinstance(n.func, ast.Name) and n.func.id in MUTATING:
+                callee = MUTATING[n.func.id]
+                for prm, arg in zip(callee.ptypes, n.args):
+                    if prm in callee.mut and base_name(arg):
+                        out.append(base_name(arg))
             elif isinstance(n, ast.AugAssign):
                 t = n.target
                 out.append(t.id if isinstance(t, ast.Name) else t.value.id if isinstance(t, ast.Subscript) and isinstance(t.value, ast.Name) else "?")
@@ -109,13 +129,63 @@ def first_use_is_load(stmts, v):
     return _rbw(stmts, v) == "read"
 
 
+class _Rename(ast.NodeTransformer):
+    def __init__(self, tuples, ren):
+        self.tuples, self.ren = tuples, ren
+
+    def visit_Subscript(self, n):
+        self.generic_visit(n)
+        if isinstance(n.value, ast.Name) and n.value.id in self.tuples and isinstance(n.slice, ast.Constant) \
+                and isinstance(n.slice.value, int) and 0 <= n.slice.value < self.tuples[n.value.id]:
+            return ast.copy_location(ast.Name(id="%s_%d" % (n.value.id, n.slice.value), ctx=n.ctx), n)
+        return n
+
+    def visit_Name(self, n):
+        if n.id in self.ren:
+            return ast.copy_location(ast.Name(id=self.ren[n.id], ctx=n.ctx), n)
+        return n
+
+
+def preprocess(fdef, ptypes, flat):
+    """tuple parameters are flattened (`current_graph[1]` -> `current_graph_1`); a local that is bound exactly once, at the
+    top level of the function, to an array parameter is an alias of it (numpy views share memory) and is renamed away"""
+    tuples = {p: len(t) for p, t in ptypes.items() if isinstance(t, tuple)}
+    fdef = _Rename(tuples, {}).visit(fdef)
+    for t in tuples:
+        if t in names_loaded(fdef):
+            raise Unsupported("tuple parameter %s used other than through a constant subscript" % t)
+    ren, body = {}, []
+    for st in fdef.body:
+        if isinstance(st, ast.Assign) and len(st.targets) == 1 and isinstance(st.targets[0], ast.Name) and isinstance(st.value, ast.Name) \
+                and st.value.id in flat and flat[st.value.id].startswith("arr"):
+            a, b = st.targets[0].id, st.value.id
+            binds = [n for n in ast.walk(fdef) if isinstance(n, ast.Name) and isinstance(n.ctx, ast.Store) and n.id in (a, b)]
+            if len(binds) != 1 or a in flat:
+                raise Unsupported("alias %s of %s is rebound" % (a, b))
+            ren[a] = b
+        else:
+            body.append(st)
+    fdef.body = body
+    fdef = _Rename({}, ren).visit(fdef)
+    ast.fix_missing_locations(fdef)
+    return fdef
+
+
 class Fn:
     def __init__(self, fdef, ptypes, ret):
-        self.f, self.name, self.ptypes, self.ret = fdef, fdef.name, ptypes, ret
         got = [a.arg for a in fdef.args.args]
         if got != list(ptypes):
             raise Unsupported("parameter list changed: %s" % got)
-        self.mut = [p for p in got if ptypes[p].startswith("arr") and p in stored_names(fdef.body)]
+        flat = {}
+        for prm, t in ptypes.items():
+            if isinstance(t, tuple):
+                for k, tk in enumerate(t):
+                    flat["%s_%d" % (prm, k)] = tk
+            else:
+                flat[prm] = t
+        fdef = preprocess(fdef, ptypes, flat)
+        self.f, self.name, self.ptypes, self.ret = fdef, fdef.name, flat, ret
+        self.mut = [p for p in flat if flat[p].startswith("arr") and p in stored_names(fdef.body)]
         self.loops = []          # emitted loop definitions (text)
         self.nloop = 0
         self.ntmp = 0
@@ -147,11 +217,19 @@ class Fn:
             if isinstance(e.value, ast.Attribute) and e.value.attr == "shape":
                 return "Int"
             t = self.ty(e.value, env)
-            if t == "arrP": return "P"
-            if t == "arrI": return "Int"
+            if isinstance(e.slice, ast.Tuple) and len(e.slice.elts) == 2 and t in ("arr2P", "arr2I"):
+                a, b = e.slice.elts
+                if isinstance(a, ast.Slice): raise Unsupported("column slice " + ast.unparse(e))
+                return ELEM[t] if isinstance(b, ast.Slice) else ELEM[ELEM[t]]
+            if t in ELEM and not isinstance(e.slice, ast.Tuple): return ELEM[t]
+        if isinstance(e, ast.Call) and isinstance(e.func, ast.Name) and e.func.id == "len" and len(e.args) == 1:
+            return "Int"
+        if isinstance(e, ast.Call) and isinstance(e.func, ast.Name) and e.func.id in MUTATING:
+            r = MUTATING[e.func.id].ret
+            if isinstance(r, str) and r != "Unit": return r
         if isinstance(e, ast.BinOp):
             a, b = self.ty(e.left, env), self.ty(e.right, env)
-            if a == b: return a
+            if a == b and (a == "Int" or not isinstance(e.op, ast.Mod)): return a
         if isinstance(e, ast.UnaryOp) and isinstance(e.op, ast.USub):
             return self.ty(e.operand, env)
         if isinstance(e, ast.Call) and isinstance(e.func, ast.Attribute) and e.func.attr in ("zeros", "empty") and len(e.keywords) == 1:
@@ -172,21 +250,40 @@ class Fn:
             if isinstance(e.value, float) and e.value == 0.0: return "(0 : P)"
         if isinstance(e, ast.Name):
             self.ty(e, env); return e.id
+        if isinstance(e, ast.Subscript) and isinstance(e.value, ast.Attribute) and e.value.attr == "shape" and isinstance(e.value.value, ast.Name) \
+                and isinstance(e.slice, ast.Constant) and e.slice.value == 1 and self.ty(e.value.value, env) in ("arr2P", "arr2I"):
+            return "(ncols %s : Int)" % e.value.value.id
         if isinstance(e, ast.Subscript):
             if isinstance(e.value, ast.Attribute) and e.value.attr == "shape" and isinstance(e.value.value, ast.Name) \
-                    and isinstance(e.slice, ast.Constant) and e.slice.value == 0 and self.ty(e.value.value, env).startswith("arr"):
+                    and isinstance(e.slice, ast.Constant) and e.slice.value == 0 and self.ty(e.value.value, env) in ELEM:
                 return "(%s.size : Int)" % e.value.value.id
             if isinstance(e.slice, ast.Slice):
                 s = e.slice
                 if s.lower is None and s.step is None and s.upper is not None and isinstance(e.value, ast.Name) and self.ty(e.value, env).startswith("arr"):
                     return "(← take %s %s)" % (e.value.id, self.ex(s.upper, env))
                 raise Unsupported("slice " + ast.unparse(e))
-            if isinstance(e.value, ast.Name) and self.ty(e.value, env).startswith("arr"):
+            if isinstance(e.value, ast.Name) and self.ty(e.value, env) in ("arrP", "arrI"):
                 return "(← rd %s %s)" % (e.value.id, self.ex(e.slice, env))
+            if isinstance(e.value, ast.Attribute):
+                raise Unsupported("expression " + ast.unparse(e))
+            t = self.ty(e.value, env)
+            if isinstance(e.slice, ast.Tuple) and len(e.slice.elts) == 2 and t in ("arr2P", "arr2I"):
+                a, b = e.slice.elts
+                if isinstance(b, ast.Slice):
+                    if b.lower is None and b.step is None and b.upper is not None:
+                        return "(← take (← rd %s %s) %s)" % (self.ex(e.value, env), self.ex(a, env), self.ex(b.upper, env))
+                    raise Unsupported("slice " + ast.unparse(e))
+                return "(← rd (← rd %s %s) %s)" % (self.ex(e.value, env), self.ex(a, env), self.ex(b, env))
+            if t in ELEM and not isinstance(e.slice, (ast.Tuple, ast.Slice)):
+                return "(← rd %s %s)" % (self.ex(e.value, env), self.ex(e.slice, env))
+        if isinstance(e, ast.Call) and isinstance(e.func, ast.Name) and e.func.id == "len" and len(e.args) == 1 \
+                and self.ty(e.args[0], env) in ELEM:
+            return "((%s).size : Int)" % self.ex(e.args[0], env)
         if isinstance(e, ast.BinOp):
             a, b, t = self.ex(e.left, env), self.ex(e.right, env), self.ty(e, env)
             op = {ast.Add: "+", ast.Sub: "-", ast.Mult: "*"}.get(type(e.op))
             if op and t in ("Int", "P"): return "(%s %s %s)" % (a, op, b)
+            if isinstance(e.op, ast.Mod) and t == "Int": return "(%s %% %s)" % (a, b)   # Int.emod = Python % for a positive modulus
         if isinstance(e, ast.UnaryOp) and isinstance(e.op, ast.USub) and self.ty(e, env) in ("Int", "P"):
             return "(-%s)" % self.ex(e.operand, env)
         if isinstance(e, ast.Call) and isinstance(e.func, ast.Attribute) and e.func.attr == "zeros" and len(e.args) == 1:
@@ -251,6 +348,21 @@ class Fn:
             return [ind + "let %s := %s.push %s" % (a, a, self.ex(s.value.args[0], env))] + self.block(rest, env, ctx, ind)
         if isinstance(s, ast.AugAssign):
             s = ast.Assign(targets=[s.target], value=ast.BinOp(left=self.as_load(s.target), op=s.op, right=s.value))
+        if isinstance(s, ast.Expr) and isinstance(s.value, ast.Call) and isinstance(s.value.func, ast.Name) and s.value.func.id in MUTATING:
+            lines, env2 = self.call(s.value, None, env, ind)
+            return lines + self.block(rest, env2, ctx, ind)
+        if isinstance(s, ast.Assign) and len(s.targets) == 1 and isinstance(s.targets[0], ast.Name) and isinstance(s.value, ast.Call) \
+                and isinstance(s.value.func, ast.Name) and s.value.func.id in MUTATING:
+            lines, env2 = self.call(s.value, s.targets[0].id, env, ind)
+            return lines + self.block(rest, env2, ctx, ind)
+        if isinstance(s, ast.Assign) and len(s.targets) == 1 and isinstance(s.targets[0], ast.Tuple) and not isinstance(s.value, ast.Tuple) \
+                and all(isinstance(x, ast.Name) for x in s.targets[0].elts) and self.ty(s.value, env) == "upd" and len(s.targets[0].elts) == 3:
+            names = [x.id for x in s.targets[0].elts]
+            env2 = dict(env)
+            for nm, tnm in zip(names, ("Int", "Int", "P")):
+                if nm in env and env[nm] != tnm: raise Unsupported("%s changes type" % nm)
+                env2[nm] = tnm
+            return [ind + "let (%s) := %s" % (", ".join(names), self.ex(s.value, env))] + self.block(rest, env2, ctx, ind)
         if isinstance(s, ast.Assign) and len(s.targets) == 1:
             t = s.targets[0]
             if isinstance(t, ast.Tuple) and isinstance(s.value, ast.Tuple) and len(t.elts) == len(s.value.elts):
@@ -275,7 +387,7 @@ class Fn:
             body = s.body if (isinstance(s.test, ast.Constant) and s.test.value is True) else [ast.If(test=s.test, body=s.body, orelse=[ast.Break()])]
             return self.loop(body, None, rest, env, ctx, ind)
         if isinstance(s, ast.For) and not s.orelse and isinstance(s.target, ast.Name) and isinstance(s.iter, ast.Call) \
-                and isinstance(s.iter.func, ast.Name) and s.iter.func.id == "range" and 1 <= len(s.iter.args) <= 3 and not s.iter.keywords:
+                and ast.unparse(s.iter.func) in ("range", "numba.prange") and 1 <= len(s.iter.args) <= 3 and not s.iter.keywords:
             a = s.iter.args
             start = a[0] if len(a) >= 2 else ast.Constant(value=0)
             stop = a[1] if len(a) >= 2 else a[0]
@@ -310,13 +422,65 @@ class Fn:
                 raise Unsupported("%s changes type %s -> %s" % (t.id, env[t.id], ty))
             env2 = dict(env); env2[t.id] = ty
             return [ind + "let %s := %s" % (t.id, self.ex(value, env))], env2
-        if isinstance(t, ast.Subscript) and isinstance(t.value, ast.Name) and not isinstance(t.slice, ast.Slice):
+        if isinstance(t, ast.Subscript) and isinstance(t.value, ast.Name) and isinstance(t.slice, ast.Tuple) and len(t.slice.elts) == 2 \
+                and not any(isinstance(x, ast.Slice) for x in t.slice.elts) and self.ty(t.value, env) in ("arr2P", "arr2I"):
+            a = t.value.id
+            if self.ty(value, env) != ELEM[ELEM[env[a]]]:
+                raise Unsupported("store " + ast.unparse(t))
+            i, j = (self.ex(x, env) for x in t.slice.elts)
+            return [ind + "let %s ← wr2 %s %s %s %s" % (a, a, i, j, self.ex(value, env))], env
+        if isinstance(t, ast.Subscript) and isinstance(t.value, ast.Name) and not isinstance(t.slice, (ast.Slice, ast.Tuple)):
             a = t.value.id
             at = self.ty(t.value, env)
             if not at.startswith("arr") or self.ty(value, env) != ("P" if at == "arrP" else "Int"):
                 raise Unsupported("store " + ast.unparse(t))
             return [ind + "let %s ← wr %s %s %s" % (a, a, self.ex(t.slice, env), self.ex(value, env))], env
         raise Unsupported("assignment target " + ast.unparse(t))
+
+    def call(self, c, target, env, ind):
+        """call of an already translated kernel; array arguments may be whole arrays, rows `A[p]` of a 2-D array or row
+        prefixes `A[i, :j]` (numpy views: what the callee stores is written back into the caller's array)"""
+        callee = MUTATING[c.func.id]
+        if c.keywords or len(c.args) != len(callee.ptypes):
+            raise Unsupported("call " + ast.unparse(c))
+        args, back = [], []
+        for (prm, pt), a in zip(callee.ptypes.items(), c.args):
+            if self.ty(a, env) != pt:
+                if not (pt == "Int" and self.ty(a, env) == "Int"):
+                    raise Unsupported("argument %s of %s has type %s, expected %s" % (ast.unparse(a), c.func.id, self.ty(a, env), pt))
+            args.append(self.ex(a, env))
+            if prm in callee.mut:
+                if isinstance(a, ast.Name):
+                    back.append(("name", a.id, None, None))
+                elif isinstance(a, ast.Subscript) and isinstance(a.value, ast.Name) and not isinstance(a.slice, (ast.Tuple, ast.Slice)):
+                    back.append(("row", a.value.id, self.ex(a.slice, env), None))
+                elif isinstance(a, ast.Subscript) and isinstance(a.value, ast.Name) and isinstance(a.slice, ast.Tuple) and isinstance(a.slice.elts[1], ast.Slice):
+                    back.append(("prefix", a.value.id, self.ex(a.slice.elts[0], env), self.ex(a.slice.elts[1].upper, env)))
+                else:
+                    raise Unsupported("mutated argument " + ast.unparse(a))
+        bases = [b[1] for b in back]
+        if len(set(bases)) != len(bases):
+            raise Unsupported("the same array is handed twice to a mutating callee: " + ast.unparse(c))
+        self.ntmp += 1
+        k = self.ntmp
+        parts = ["m__%d_%d" % (k, i) for i in range(len(back))]
+        rparts = callee.ret_parts()
+        nret = len(rparts) - len(callee.mut)
+        rv = ["rv__%d_%d" % (k, i) for i in range(nret)]
+        pat = parts + rv
+        lines = [ind + "let %s ← %s fuel %s" % (("(" + ", ".join(pat) + ")") if len(pat) > 1 else pat[0] if pat else "_", callee.name, " ".join(args))]
+        for (kind, base, i, j), m in zip(back, parts):
+            if kind == "name": lines.append(ind + "let %s := %s" % (base, m))
+            elif kind == "row": lines.append(ind + "let %s ← wr %s %s %s" % (base, base, i, m))
+            else: lines.append(ind + "let %s ← wrPrefix %s %s %s %s" % (base, base, i, j, m))
+        env2 = dict(env)
+        if target is not None:
+            if nret != 1: raise Unsupported("call result arity " + ast.unparse(c))
+            t = rparts[-1]
+            if target in env and env[target] != t: raise Unsupported("%s changes type" % target)
+            env2[target] = t
+            lines.append(ind + "let %s := %s" % (target, rv[0]))
+        return lines, env2
 
     def loop(self, body, counter, rest, env, ctx, ind):
         k = self.nloop; self.nloop += 1
@@ -403,6 +567,15 @@ inductive LoopOut (σ ρ : Type) where
 /-- `a[:n]` for `0 ≤ n ≤ len a` -/
 @[inline] def take {{α : Type}} (a : Array α) (n : Int) : Option (Array α) :=
   if 0 ≤ n ∧ n.toNat ≤ a.size then some (a.extract 0 n.toNat) else none
+/-- `A[i, j] = v` -/
+@[inline] def wr2 {{α : Type}} (a : Array (Array α)) (i j : Int) (v : α) : Option (Array (Array α)) := do
+  wr a i (← wr (← rd a i) j v)
+/-- what a callee stored into the view `A[i, :j]` lands in row `i` (its tail `A[i, j:]` untouched) -/
+@[inline] def wrPrefix {{α : Type}} (a : Array (Array α)) (i j : Int) (pre : Array α) : Option (Array (Array α)) := do
+  let row ← rd a i
+  if 0 ≤ j ∧ j.toNat ≤ row.size ∧ pre.size = j.toNat then wr a i (pre ++ row.extract j.toNat row.size) else none
+/-- `A.shape[1]` of a rectangular 2-D array (0 when there are no rows) -/
+@[inline] def ncols {{α : Type}} (a : Array (Array α)) : Nat := match a[0]? with | some r => r.size | none => 0
 /-- `np.zeros(n)` -/
 @[inline] def zeros {{α : Type}} [OfNat α 0] (n : Int) : Array α := Array.replicate n.toNat 0
 
@@ -431,6 +604,7 @@ def main():
                 raise Unsupported("function not found")
             fn = Fn(fdef, ptypes, ret)
             text = fn.emit()
+            MUTATING[kname] = fn
             parts.append("/-- `%s.%s` -/\n" % (fname[:-3], kname) + text + "\n")
             report.append((kname, "ok"))
         except Unsupported as e:
